@@ -3,21 +3,24 @@
 //@ replace: xv_init_stub xv_connect_stub xv_server_stub xv_close_stub xv_cleanup_stub xv_accept_stub xv_send_stub xv_receive_stub xv_update_stub xv_finish_stub xv_enable_ctl_stub xv_priv_size_stub ctl_process ctl_create ctl_destroy get_next_sock_id
 //@ flags: --object-bits 10
 //@ props: C04 C14
-//@ expect: postcondition>=5 canary=7
+//@ expect: postcondition>=5 canary=11
 #include "_unit.h"
 void harness(void)
 {
     xv_ghost_havoc();
     xv_tpcore_havoc();
     struct xcm_socket *s; 
-    long q0 = xv_seq, u0 = xv_upd_calls, t0 = xv_updt_calls, p0 = xv_ctlp_calls;
     int rv = xcm_tp_socket_finish(s);
-    if (rv >= 0 && xv_upd_calls == u0 + 1 && xv_upd_seq == xv_seq && xv_op_seq < xv_upd_seq) XV_CANARY("success, auto_update: update is the last call");
-    if (rv == -1 && xv_errno == EAGAIN && xv_upd_calls == u0 + 1 && xv_upd_seq == xv_seq) XV_CANARY("EAGAIN, auto_update: updated all the same, errno intact");
-    if (rv == -1 && xv_errno == EPIPE && xv_upd_calls == u0 + 1 && xv_ctlp_calls == p0) XV_CANARY("hard failure, auto_update: updated, ctl not polled");
-    if (xv_upd_calls == u0 && xv_seq == q0 + 1) XV_CANARY("no auto_update (sub-socket): the operation only");
-    if (rv == -1 && xv_errno == EAGAIN && xv_ctlp_calls == p0 + 1 && xv_seq == q0 + 3) XV_CANARY("EAGAIN, poll due: op, ctl_process, update; errno intact");
-    if (rv > 0 && xv_ctlp_calls == p0 + 1 && xv_seq == q0 + 2) XV_CANARY("progress, poll due, no auto_update");
-    if (xv_updt_calls == t0 + 1) XV_CANARY("tracked socket updated");
-    
+    (void)rv;
+    if (xv_op_rv > 0 && xv_g_auto_upd) XV_CANARY("progress, auto_update");
+    if (xv_op_rv == -1 && xv_op_errno == EAGAIN && xv_g_auto_upd && !xv_g_ctl) XV_CANARY("EAGAIN, auto_update, no ctl");
+    if (xv_op_rv == -1 && xv_op_errno == EPIPE && xv_g_auto_upd && xv_g_ctl && xv_g_skipped == 256) XV_CANARY("hard failure, auto_update, ctl poll would be due");
+    if (!xv_g_auto_upd && !xv_g_ctl) XV_CANARY("no auto_update, no ctl (sub-socket)");
+    if (xv_op_rv == -1 && xv_op_errno == EAGAIN && xv_g_auto_upd && xv_g_ctl && xv_g_skipped == 193) XV_CANARY("EAGAIN, ctl poll due, auto_update: three calls");
+    if (xv_op_rv == -1 && xv_op_errno == EAGAIN && xv_g_ctl && xv_g_skipped == 192) XV_CANARY("EAGAIN, ctl poll not yet due");
+    if (xv_op_rv > 0 && xv_g_ctl && xv_g_skipped == 256 && !xv_g_auto_upd) XV_CANARY("progress, ctl poll due, no auto_update");
+    if (xv_op_rv > 0 && xv_g_ctl && xv_g_skipped == 255) XV_CANARY("progress, ctl poll not yet due");
+    if (xv_t == xv_op_s && xv_g_auto_upd) XV_CANARY("tracked socket is this one");
+    if (xv_t != xv_op_s && xv_g_auto_upd) XV_CANARY("tracked socket is another one");
+    if (xv_op_rv == 0 && xv_g_ctl && xv_g_skipped == 256) XV_CANARY("finished, ctl poll due");
 }
